@@ -396,18 +396,21 @@ def run(ctx):
         from translator import C20_energy as T_energy
         ce = T_energy.read_calc_energy(ctx.repo)
         open(os.path.join(ctx.build, "Gen_CalcEnergy.v"), "w").write(T_energy.emit_coq(ce))
+        cr = T_energy.read_calc_reaction(ctx.repo)
+        open(os.path.join(ctx.build, "Gen_CalcReaction.v"), "w").write(T_energy.emit_coq_reaction(cr))
+        ctx.cov["calc_reaction_translated_terms"] = [(m, e) for m, e, _ in cr["terms"]]
         ctx.obligation("translate:Calc_Energy", True, ce["tree"])
         ctx.cov["calc_energy_translated_form"] = ce["tree"]
-        files = files + ["Gen_CalcEnergy.v"] + ctx.copy_props("C20/C20_calc_energy.v")
+        files = files + ["Gen_CalcEnergy.v", "Gen_CalcReaction.v"] + ctx.copy_props("C20/C20_calc_energy.v")
     except Exception as ex:
         ctx.obligation("translate:Calc_Energy", False, str(ex))
-        ctx.violation("translate:Calc_Energy", "translator rejected the body of _Simu.Calc_Energy (the energy theorems no longer apply to the source): %s" % ex,
+        ctx.violation("translate:Calc_Energy", "translator rejected the body of _Simu.Calc_Energy / Calc_Reaction (the energy/reaction theorems no longer apply to the source): %s" % ex,
                       {"construct": str(ex)}, found_input=False)
     res = ctx.coq(files, timeout=600)
     if not res.ok:
         if res.failed_file == "C20_calc_energy.v":
             # keep going: the correspondence below calls the real Calc_Energy on every part
-            ctx.violation("coq:C20_calc_energy", "the body of _Simu.Calc_Energy translated from the source is no longer the owned-rows x full-vector form the energy theorems are about (C20_calc_energy_is_owned_rows_full_vector does not compile)",
+            ctx.violation("coq:C20_calc_energy", "the body of _Simu.Calc_Energy / Calc_Reaction translated from the source is no longer the owned-rows x full-vector form the energy/reaction theorems are about (C20_calc_energy.v does not compile)",
                           {"log": res.log[-600:], "translated": ctx.cov.get("calc_energy_translated_form")}, found_input=False)
         else:
             ctx.violation("coq:C20_theorems", "the property theorems no longer compile", {"log": res.log[-3000:]}, found_input=False)
